@@ -122,6 +122,8 @@ type driver struct {
 	storm     int
 	forged    int
 	nonDHCP   int
+	failTemp  int       // number of coming writes the connection refuses with a temporary error (action "tempfail")
+	tempHit   bool      // a write was refused during the current step
 	ackFile   []FileRec // lease file as it was when the last DHCPACK of the step was written to the connection
 	ackSeen   bool
 	ages      int       // number of "age" actions (6 s each) since the behaviour started
@@ -155,7 +157,17 @@ func (d *driver) newSession() error {
 	}
 	// deadlines at their maximum: the session's own minute ticker never ages anything during a run
 	rec := vh.NewRecConn()
-	hc := &vh.HookConn{RecConn: rec, Before: func(b []byte) error { d.onWrite(b); return nil }}
+	hc := &vh.HookConn{RecConn: rec, Before: func(b []byte) error {
+		if m, err := vh.DecodeDHCPFrame(b); d.failTemp > 0 && err == nil && m != nil && m.Op == 2 {
+			// the device refuses this write (a server reply: the frames written by goroutines are left alone so that
+			// the event is deterministic) with a temporary error
+			d.failTemp--
+			d.tempHit = true
+			return tempErr{}
+		}
+		d.onWrite(b)
+		return nil
+	}}
 	s, err := packet.Config{Conn: hc, NICInfo: d.nw.Universe().NICInfo(), ProbeDeadline: 30 * vh.Unit,
 		OfflineDeadline: 60 * vh.Unit, PurgeDeadline: 24 * 60 * vh.Unit}.NewSession("")
 	if err != nil {
@@ -172,6 +184,13 @@ func (d *driver) dns() netip.Addr {
 	}
 	return d.nw.DNS
 }
+
+// tempErr is a temporary network error (net.Error with Temporary() == true).
+type tempErr struct{}
+
+func (tempErr) Error() string   { return "verif: injected temporary write failure" }
+func (tempErr) Timeout() bool   { return false }
+func (tempErr) Temporary() bool { return true }
 
 // onWrite runs when the handler hands a frame to the connection: if it is a DHCPACK, the lease file is read at that
 // very moment (an acknowledged binding must already be durable when the ACK leaves).
@@ -201,6 +220,8 @@ func (d *driver) reset(cfg int, mode string, storm bool) error {
 	os.Remove(d.file)
 	d.fileStamp = ""
 	d.altDNS = false
+	d.failTemp, d.tempHit = 0, false
+	d.ackSeen = false
 	d.ages = 0
 	d.lastOffer, d.lastAck = map[string]int{}, map[string]int{}
 	if storm {
@@ -707,6 +728,9 @@ func (d *driver) step(a action) (rec map[string]interface{}) {
 		if err := d.newHandler(); err != nil {
 			perr = "new: " + err.Error()
 		}
+	case "tempfail":
+		// environment event (C10 histories only): the next write to the device fails with a temporary error
+		d.failTemp = 1
 	case "age":
 		// a quiet period longer than the validity of an offer (5 s) passes (verif hook, no wall clock wait)
 		d.h.VerifAgeOffers(ageStep)
@@ -736,6 +760,12 @@ func (d *driver) step(a action) (rec map[string]interface{}) {
 	}
 	d.scribble()
 	d.drain()
+	if d.tempHit {
+		// a refused write may be retried by the code under test after a back-off: wait for it (after the buffer was scribbled over)
+		d.tempHit = false
+		time.Sleep(35 * time.Millisecond)
+		d.settle()
+	}
 	if d.txlog {
 		d.tx = d.tx[:0]
 	}
